@@ -184,8 +184,21 @@ def replay(prop, path):
             print("VIOLATION property=%s replay=%s obligation=%s" % (prop, path, o.id))
             return 1
         return 0 if rep is False else 2
-    # otherwise: re-run the single obligation
-    return main([prop, "--tier", "thorough", "--only", o.id])
+    if o.engine == "exec":
+        import exec_engine
+        # show what the real library does with the recorded failing input file(s), then re-run the obligation
+        files = re.findall(r"\[input file: ([^\]]+)\]", json.dumps(oc))
+        for fpath in files[:3]:
+            if os.path.exists(fpath):
+                env = exec_engine._env(scratch, {"tier": "quick", "seed": 0})
+                env["VERIF_REPLAY_FILE"] = fpath
+                rc, out, secs = common.run(["cargo", "test", "--offline", "--lib", "--features", "utils", "--", "verif_exec::x_total::x_replay_file",
+                                            "--exact", "--nocapture"], cwd=scratch.repo, env=env, timeout=1800)
+                for line in out.splitlines():
+                    if line.startswith("REPLAY-"):
+                        print(line)
+    # re-run the single obligation (decides whether the violation still reproduces)
+    return main([prop, "--tier", "thorough" if o.tier == "thorough" else "quick", "--only", o.id])
 
 
 def write_evidence(prop, tier, seed, obls, outcomes, notes, t0, path, nviol):
